@@ -1,7 +1,7 @@
 (* Properties/C11.v -- Encoding is total and failures are classified correctly (the parts that are theorems). *)
 From Coq Require Import Arith NArith List Bool Lia.
 From DM Require Import Generated.Symbols Generated.ModeTables Model.Outcome Model.SymbolList Model.Planner Model.Enc
-  Model.RSEnc Model.Api Model.PlannerRun Proofs.RSEncLen Proofs.EncLocal Proofs.EncTop Proofs.EncAscii Proofs.PlanTotal Proofs.AsciiTotal.
+  Model.RSEnc Model.Api Model.PlannerRun Proofs.RSEncLen Proofs.EncLocal Proofs.EncTop Proofs.EncAscii Proofs.PlanTotal Proofs.AsciiTotal Proofs.EncAB Proofs.EncABTotal.
 Import ListNotations.
 Local Open Scope N_scope.
 
@@ -117,7 +117,22 @@ Theorem C11_ascii_only_total : forall sorter data symbols,
 Proof. exact ascii_only_total. Qed.
 Print Assumptions C11_ascii_only_total.
 
-(* NOT a theorem here: that the main loop's assertions never fire, i.e. that the encoder reaches every switch
+(* (ix) the whole property for every mode set within {ASCII, Base256} -- the sets {ASCII}, {Base256}, {ASCII, Base256} --,
+   every byte string, every symbol list, macros on or off, FNC1 start or not, every ECI number up to 999999, every total sub-list
+   sort: a value or one of the two errors, never a panic.  Here the planner/encoder agreement IS proved: the planner's plans
+   (Proofs/PlanAlign.v) have strictly decreasing positions, end an ASCII run only at an item boundary of the greedy ASCII
+   encodation, leave a Base256 run after at most 1555 bytes (the last one has at most 1556), and alternate modes; under such a
+   plan maybe_switch_mode's assertion, the no-progress guard of the main loop, the length-field assertion of the Base256
+   encoder and all loop bounds of the model are unreachable (Proofs/EncABTotal.v) *)
+Theorem C11_ab_total : forall sorter data symbols eci modes use_macros fnc1,
+  (forall sl k l, exists l', sorter sl k l = Ok l' /\ incl l' l) ->
+  (forall m, enabled modes m = true -> m = Ascii \/ m = Base256) ->
+  match eci with Some c => c <= 999999 | None => True end ->
+  no_panic (encode_data_internal (optimize_fn sorter) data symbols eci modes use_macros fnc1).
+Proof. exact ab_total. Qed.
+Print Assumptions C11_ab_total.
+
+(* NOT a theorem for the mode sets that contain C40, Text, X12 or EDIFACT: that the main loop's assertions never fire, i.e. that the encoder reaches every switch
    position the planner chose (planner/encoder agreement).  It is decided per case by running model and
    implementation (debug and release) on the same inputs; the planner's own termination bound is C19, its totality (vi). *)
 Example C11_example : encode_data_internal (fun _ _ _ _ => Ok None) [65] [Square10] None 63 true false = Err TooMuchOrIllegalData.
